@@ -585,6 +585,13 @@ def gen_scenario(rng, flavour=None):
     head, tail = integrators[:nsp], integrators[nsp:]
     rng.shuffle(tail)
     integrators = head + tail
+    # another integrator of a species listed BEFORE its velocity-Verlet integrator (the species keeps its colour: the swapped
+    # integrator takes the place of the first mention); per-integrator slots of the species' force copies then start above 0
+    for s in species:
+        iv = [k for k, ig in enumerate(integrators) if ig[0] == 'vv' and ig[1] == s]
+        ie = [k for k, ig in enumerate(integrators) if ig[0] == 'euler' and ig[1] == s]
+        if iv and ie and ie[0] > iv[0] and rng.random() < 0.35:
+            integrators[iv[0]], integrators[ie[0]] = integrators[ie[0]], integrators[iv[0]]
     # --- symbols: (name, ty, degree) per species, built in dependency order
     col = {s: i for i, s in enumerate(species)}
     modules = []
@@ -1018,6 +1025,7 @@ def main(argv):
         rs, hits = r[1], r[2]
         if hits != 0: skip('reflector hit'); continue
         summ['cases'] += 1
+        if len(summ.setdefault('samples', [])) < 2: summ['samples'].append(dict(flavour=gs['flavour'], model_input=to_model(gs)[:14], steps_dumped=len(rs)))
         summ['flavours'][gs['flavour']] = summ['flavours'].get(gs['flavour'], 0) + 1
         summ['species_counts'][len(gs['species'])] = summ['species_counts'].get(len(gs['species']), 0) + 1
         nf = sum(1 for p in gs['particles'] if p.get('frozen'))
